@@ -4,6 +4,7 @@ import AC.Props.C08
 import AC.Props.C09
 import AC.SeqLast
 import AC.OptProof
+import AC.Gen.Ensemble
 /-! # C01 — every search algorithm returns a genuine addition chain ending at the target
 
 Model: `P.DA.execute` (`exec.Execute` over `binary.RightToLeft`, `alg.AsChainAlgorithm`,
@@ -141,6 +142,13 @@ theorem C01_total_opt (a : ChainAlg) (n : Nat) (o : List TermP) (c : List Int) (
       | Except.ok c => Except.ok (P.OptX.optimize c)) = _
     rw [hf]
   exact C01_execute_of_find _ n o _ hf' h1 (by rw [h4, hl])
+
+/-- every member of the default ensemble (list regenerated from `ensemble.Ensemble()` of the working
+    tree on every run) is a well-formed configuration: window sizes at least 1 and every heuristic
+    composition contains a total heuristic -/
+theorem C01_ensemble_wf : ∀ a ∈ AC.Gen.ensembleConfigs, a.wf = true := by
+  have h : AC.Gen.ensembleConfigs.all (fun a => a.wf) = true := by decide +kernel
+  exact fun a ha => (List.all_eq_true.1 h) a ha
 
 /-- non-vacuity: a dictionary algorithm with the optimisation wrapper is well-formed -/
 example : (ChainAlg.opt (.dict (.sliding 4) (.heuristic (.useFirst [.halving, .deltaLargest])))).wf = true := by decide
